@@ -497,11 +497,7 @@ func (f *Flow) Reach(q Query) ([]Pt, bool) {
 					known, val := false, false
 					if isNilIdent(f.Info, rhs) {
 						known, val = true, true
-					} else if u, isU := rhs.(*ast.UnaryExpr); isU && u.Op == token.AND {
-						if _, isCL := ast.Unparen(u.X).(*ast.CompositeLit); isCL {
-							known, val = true, false
-						}
-					} else if call, isCall := rhs.(*ast.CallExpr); isCall && isCall_(f.Info, call, "fmt.Errorf", "errors.New") {
+					} else if nonNilErrExpr(f.Info, rhs) {
 						known, val = true, false
 					}
 					if known {
@@ -1140,6 +1136,11 @@ func (f *Flow) ReachRefined2(from Pt, obj types.Object, wantNil bool, isBool boo
 					if !assignsSame(f.Info, n, lo, wantNil, isBool) {
 						del = append(del, lo)
 					}
+				case !isBool && ((wantNil && isNilIdent(f.Info, as.Rhs[i])) || (!wantNil && nonNilErrExpr(f.Info, as.Rhs[i]))):
+					// another variable receives a value of the very nil-ness the refinement is about
+					if v, isVar := lo.(*types.Var); isVar && !v.IsField() && isErrorType(v.Type()) {
+						add = append(add, lo)
+					}
 				}
 				touched = true
 			}
@@ -1594,6 +1595,8 @@ func assignsSame(info *types.Info, n ast.Node, obj types.Object, wantNil, isBool
 				}
 			} else if wantNil && isNilIdent(info, as.Rhs[i]) {
 				same = true
+			} else if !wantNil && nonNilErrExpr(info, as.Rhs[i]) {
+				same = true
 			}
 		}
 		return true
@@ -1880,4 +1883,52 @@ func (f *Flow) constAssignedBool(v *types.Var) bool {
 		})
 	}
 	return f.boolConst[v]
+}
+
+// nonNilErrExpr: the expression is an error value that is not nil whatever the input: the address of a composite
+// literal, a struct literal, errors.New / fmt.Errorf, or a package-level sentinel (`ErrInvalidAuthCred`, `io.EOF`).
+func nonNilErrExpr(info *types.Info, e ast.Expr) bool {
+	switch x := ast.Unparen(e).(type) {
+	case *ast.UnaryExpr:
+		if x.Op == token.AND {
+			_, isCL := ast.Unparen(x.X).(*ast.CompositeLit)
+			return isCL
+		}
+	case *ast.CompositeLit:
+		return true
+	case *ast.CallExpr:
+		return isCall_(info, x, "fmt.Errorf", "errors.New")
+	case *ast.Ident, *ast.SelectorExpr:
+		var id *ast.Ident
+		if s, isSel := x.(*ast.SelectorExpr); isSel {
+			id = s.Sel
+		} else {
+			id = x.(*ast.Ident)
+		}
+		if v, isVar := info.Uses[id].(*types.Var); isVar && !v.IsField() && v.Pkg() != nil && v.Parent() == v.Pkg().Scope() {
+			return isErrorType(v.Type()) || types.Implements(v.Type(), errorIface())
+		}
+	}
+	return false
+}
+
+func errorIface() *types.Interface {
+	return types.Universe.Lookup("error").Type().Underlying().(*types.Interface)
+}
+
+// RangeOfX: go/cfg emits the range expression of a range statement as a node of the block in front of the loop
+// head. For such a node the range statement is returned (nil otherwise).
+func (f *Flow) RangeOfX(n ast.Node) *ast.RangeStmt {
+	e, ok := n.(ast.Expr)
+	if !ok || f.Body == nil {
+		return nil
+	}
+	var found *ast.RangeStmt
+	ast.Inspect(f.Body, func(x ast.Node) bool {
+		if rs, ok := x.(*ast.RangeStmt); ok && rs.X == e {
+			found = rs
+		}
+		return found == nil
+	})
+	return found
 }
